@@ -253,7 +253,7 @@ func (s *Sim) dial(ctx context.Context, p peer.ID) error {
 	}
 	if script != nil {
 		r := script(n, nil) // a nil request asks for the dial behaviour
-		if r.Delay > 0 && r.DialFail {
+		if r.Delay > 0 { // dials take time whether they succeed or fail; a cancelled dial returns the ctx error
 			if err := sleepCtx(ctx, r.Delay); err != nil {
 				return err
 			}
